@@ -55,6 +55,38 @@ pub fn fmt_debug<KD: Kind>(cx: &mut Ctx, x: &dyn fmt::Debug, alt: bool) -> Resul
     render(cx, KD::NOALLOC, |s| if alt { write!(s, "{x:#?}") } else { write!(s, "{x:?}") })
 }
 
+/// Formatting with width / fill / alignment / sign / precision flags: only the allocation
+/// oracle (C06) looks at these; the output under such flags is outside C19's statement.
+pub fn fmt_spec_noalloc<KD: Kind>(cx: &mut Ctx, d: Option<&dyn fmt::Display>, g: Option<&dyn fmt::Debug>, spec: u8) {
+    if !KD::NOALLOC {
+        return;
+    }
+    if let Some(x) = d {
+        let _ = render(cx, true, |s| match spec % 8 {
+            0 => write!(s, "{x:>40}"),
+            1 => write!(s, "{x:8}"),
+            2 => write!(s, "{x:<3}"),
+            3 => write!(s, "{x:*^25}"),
+            4 => write!(s, "{x:08}"),
+            5 => write!(s, "{x:+}"),
+            6 => write!(s, "{x:.2}"),
+            _ => write!(s, "{x:>w$}", w = 17),
+        });
+    }
+    if let Some(x) = g {
+        let _ = render(cx, true, |s| match spec % 8 {
+            0 => write!(s, "{x:>40?}"),
+            1 => write!(s, "{x:8?}"),
+            2 => write!(s, "{x:<3?}"),
+            3 => write!(s, "{x:#12?}"),
+            4 => write!(s, "{x:08?}"),
+            5 => write!(s, "{x:+?}"),
+            6 => write!(s, "{x:x?}"),
+            _ => write!(s, "{x:#X?}"),
+        });
+    }
+}
+
 pub fn fmt_display<KD: Kind>(cx: &mut Ctx, x: &dyn fmt::Display) -> Result<String, Pk> {
     render(cx, KD::NOALLOC, |s| write!(s, "{x}"))
 }
